@@ -507,6 +507,25 @@ def _run_combined(case, r):
                 r.check(_same(got, seqarr), cell, "Combined(m1..mk)(x) == the real parts applied in order", parts=seq, params=init, signal=a, got=got, want=seqarr)
             except Exception as e:
                 r.fail(cell, "the parts can be applied one after the other", exception=f"{type(e).__name__}: {e}")
+    # ---- a part with an additional call argument: the sequence followed by a static threshold with a
+    # mask; combined(signal, mask) == threshold(parts(signal), mask)
+    try:
+        a_t = _values(SHAPES["2d"], 1, 1) * 2.0 - 0.5
+        mask_t = (np.arange(a_t.size).reshape(a_t.shape) % 3) != 0
+        thr = (0.1, 0.9)
+        parts_t = [_make_part(k, p) for k, p in zip(seq, init)] + [darsia.StaticThresholdModel(thr[0], thr[1])]
+        comb_t = darsia.CombinedModel(parts_t)
+        inner = a_t.copy()
+        for k, p in zip(seq, init):
+            inner = np.asarray(_make_part(k, p)(inner), dtype=float)
+        for mk_ in (None, mask_t):
+            got_t = np.asarray(comb_t(a_t.copy()) if mk_ is None else comb_t(a_t.copy(), mk_.copy()))
+            want_t = np.logical_and(inner > thr[0], inner < thr[1])
+            if mk_ is not None:
+                want_t = np.logical_and(want_t, mk_)
+            r.check(got_t.shape == want_t.shape and np.array_equal(got_t.astype(bool), want_t), "C14/combined/call/extra-argument", "a combined model hands the additional call argument (mask) to the part that takes one: combined(signal, mask) == threshold(parts(signal), mask)", parts=seq, with_mask=mk_ is not None, got=got_t, want=want_t)
+    except Exception as e:
+        r.fail("C14/combined/call/extra-argument", "a combined model ending in a threshold part can be called with and without a mask", parts=seq, exception=f"{type(e).__name__}: {e}")
     # ---- flat parameter vector
     new = [COMB_NEW[k][i] for i, k in enumerate(seq)]
     probe = {f: _values(SHAPES[f], 1, 1) * 2.0 - 0.5 for f in ("2d", "1d")}
